@@ -653,6 +653,67 @@ func richTour(u *universe, w *hWorld) []func() *worldOp {
 			dl(tx(u.U[0], u.U[0], "MultiESDTNFTTransfer", tkMulti(u.U[2], u.Fung[0], nil, be(1))...)),
 		)
 	}
+	// ---- round 7 ----
+	// (t) state a function object could keep between calls: a multi-transfer with many entries and then one with fewer towards the other
+	//     shard; the same (token, nonce, quantity) shipped again after the sender changed the NFT's attributes and URIs; a token whose
+	//     identifier is a suffix of the one moved just before, through every transfer function; a multi-transfer refused on its second entry
+	//     and then an accepted one
+	wtok := append([]byte("W"), u.Fung[0]...)
+	l = append(l,
+		tx(u.U[0], u.U[0], "MultiESDTNFTTransfer", tkMulti(u.U[2], u.Fung[0], nil, be(1), u.NFTs[1], be(1), be(1), u.Fung[2], nil, be(1), u.NFTs[1], be(4), be(1))...),
+		tx(u.U[0], u.U[0], "MultiESDTNFTTransfer", tkMulti(u.U[3], u.Fung[0], nil, be(2))...),
+		tx(u.U[0], u.U[0], "MultiESDTNFTTransfer", tkMulti(u.U[2], u.NFTs[1], be(4), be(1), u.Fung[0], nil, be(1))...),
+		tx(u.U[0], u.U[0], "MultiESDTNFTTransfer", tkMulti(u.U[2], u.NFTs[1], be(1), be(1))...),
+		tx(u.U[0], u.U[0], "ESDTNFTUpdateAttributes", u.NFTs[1], be(1), []byte("attributes-changed-between-two-shipments")),
+		tx(u.U[0], u.U[0], "ESDTNFTAddURI", u.NFTs[1], be(1), []byte("uri-added-between-two-shipments")),
+		tx(u.U[0], u.U[0], "MultiESDTNFTTransfer", tkMulti(u.U[2], u.NFTs[1], be(1), be(1))...),
+		tx(u.U[0], u.U[0], "ESDTNFTTransfer", u.NFTs[1], be(1), be(1), u.U[2]),
+		sysAs(u.SC, u.U[0], u.U[0], "ESDTTransfer", wtok, be(50)), // issue of the longer identifier
+		tx(u.U[0], u.U[1], "ESDTTransfer", wtok, be(3)),
+		tx(u.U[0], u.U[1], "ESDTTransfer", u.Fung[0], be(2)),
+		tx(u.U[0], u.U[2], "ESDTTransfer", wtok, be(3)),
+		tx(u.U[0], u.U[2], "ESDTTransfer", u.Fung[0], be(2)),
+		tx(u.U[0], u.U[0], "MultiESDTNFTTransfer", tkMulti(u.U[1], wtok, nil, be(1), u.Fung[0], nil, be(1))...),
+		tx(u.U[0], u.U[0], "ESDTLocalBurn", wtok, be(1)),
+		tx(u.U[0], u.U[0], "ESDTLocalBurn", u.Fung[0], be(1)),
+		tx(u.U[0], u.U[0], "MultiESDTNFTTransfer", tkMulti(u.U[1], u.Fung[0], nil, be(1), u.Fung[2], nil, new(big.Int).Lsh(big.NewInt(1), 220).Bytes())...), // second entry above the holding: refused
+		tx(u.U[0], u.U[0], "MultiESDTNFTTransfer", tkMulti(u.U[1], u.Fung[2], nil, be(1))...),
+		tx(u.U[0], u.U[0], "MultiESDTNFTTransfer", tkMulti(u.U[3], u.Fung[0], nil, be(1), u.NFTs[1], be(1), new(big.Int).Lsh(big.NewInt(1), 220).Bytes())...),
+		tx(u.U[0], u.U[0], "MultiESDTNFTTransfer", tkMulti(u.U[3], u.Fung[2], nil, be(1))...),
+	)
+	// (u) a create whose URI list repeats an entry; the same create again (equal worlds give equal bytes)
+	l = append(l,
+		tx(u.U[0], u.U[0], "ESDTNFTCreate", u.NFTs[0], be(1), []byte("dup"), be(1), []byte("hash-dup"), []byte("a"), []byte("uri-x"), []byte("uri-y"), []byte("uri-x"), []byte("uri-z"), []byte("uri-y")),
+		tx(u.U[0], u.U[0], "ESDTNFTCreate", u.NFTs[0], be(1), []byte("dup"), be(1), []byte("hash-dup"), []byte("a"), []byte("uri-x"), []byte("uri-y"), []byte("uri-x"), []byte("uri-z"), []byte("uri-y")),
+	)
+	// (v) a flagged (return-after-error) sender-side call right BEFORE an unflagged arrival on the same shard while the token is paused, and
+	//     flagged sender-side calls with less gas than the price; arrivals at a contract with an attached call under every call type, all functions
+	l = append(l,
+		sysAs(u.SC, u.U[1], u.SYS, "ESDTPause", u.NFTs[1]),
+		tweak(tx(u.U[0], u.U[0], "ESDTNFTTransfer", u.NFTs[1], be(1), be(1), u.U[1]), raeCB),
+		arrival(u.U[2], u.U[1], "ESDTNFTTransfer", u.NFTs[1], be(1), be(1), nftIn),
+		tweak(tx(u.U[0], u.U[0], "MultiESDTNFTTransfer", tkMulti(u.U[1], u.NFTs[1], be(1), be(1))...), raeCB),
+		arrival(u.U[2], u.U[1], "MultiESDTNFTTransfer", be(1), u.NFTs[1], be(1), nftIn),
+		sysAs(u.SC, u.U[1], u.SYS, "ESDTUnPause", u.NFTs[1]),
+	)
+	for _, g := range []uint64{0, 1, 5} {
+		g := g
+		l = append(l,
+			tweak(tx(u.U[0], u.U[0], "ESDTNFTTransfer", u.NFTs[1], be(1), be(1), u.U[1]), func(cs *callSpec) { raeCB(cs); cs.Gas = g }),
+			tweak(tx(u.U[0], u.U[0], "ESDTNFTTransfer", u.NFTs[1], be(1), be(1), u.U[2]), func(cs *callSpec) { raeDirect(cs); cs.Gas = g }),
+			tweak(tx(u.U[0], u.U[0], "MultiESDTNFTTransfer", tkMulti(u.U[2], u.Fung[0], nil, be(1))...), func(cs *callSpec) { raeCB(cs); cs.Gas = g }),
+			tweak(tx(u.U[0], u.U[1], "ESDTTransfer", u.Fung[0], be(1)), func(cs *callSpec) { raeCB(cs); cs.Gas = g }),
+		)
+	}
+	for _, ct := range append([]vmcommon.CallType{vmcommon.DirectCall}, cts...) {
+		ct := ct
+		setCT := func(cs *callSpec) { cs.CallType = ct }
+		l = append(l,
+			tweak(arrival(u.U[2], u.K[0], "MultiESDTNFTTransfer", be(2), u.NFTs[1], be(1), nftIn, u.Fung[2], []byte{0}, be(1), []byte("fn"), []byte("a")), setCT),
+			tweak(arrival(u.U[2], u.K[0], "ESDTNFTTransfer", u.NFTs[1], be(1), be(1), nftIn, []byte("fn"), []byte("a")), setCT),
+			tweak(arrival(u.U[2], u.K[0], "MultiESDTNFTTransfer", be(1), u.Fung[2], []byte{0}, be(1), []byte("fn")), func(cs *callSpec) { setCT(cs); cs.Gas = 90000 }),
+		)
+	}
 	// a pause addressed to the non-canonical system-account address, a transfer of the token on that shard, the unpause
 	l = append(l,
 		sysAs(u.SC, u.U[0], u.SysVar, "ESDTPause", u.Fung[2]),
